@@ -273,7 +273,67 @@ func deepEqual(x, y ipld.Node) (res bool) {
 			res = false
 		}
 	}()
-	return datamodel.DeepEqual(x, y)
+	return deepEqualNodes(x, y)
+}
+
+// deepEqualNodes is datamodel.DeepEqual, except that two maps are equal when they hold the
+// same entries, in whatever order. The order in which a map lists its entries depends on how
+// the value was built (a Go map, literal.Map, a decoded token), not on the value: with the
+// order-sensitive comparison, a policy read from a sealed delegation did not match the equal
+// map argument of an invocation that had not been sealed yet.
+func deepEqualNodes(x, y ipld.Node) bool {
+	if x == nil || y == nil {
+		return x == y
+	}
+	if x.Kind() != y.Kind() {
+		return false
+	}
+	switch x.Kind() {
+	case ipld.Kind_Map:
+		if x.Length() != y.Length() {
+			return false
+		}
+		it := x.MapIterator()
+		for !it.Done() {
+			k, xv, err := it.Next()
+			if err != nil {
+				panic(err)
+			}
+			ks, err := k.AsString()
+			if err != nil {
+				panic(err)
+			}
+			yv, err := y.LookupByString(ks)
+			if err != nil {
+				return false
+			}
+			if !deepEqualNodes(xv, yv) {
+				return false
+			}
+		}
+		return true
+	case ipld.Kind_List:
+		if x.Length() != y.Length() {
+			return false
+		}
+		xi, yi := x.ListIterator(), y.ListIterator()
+		for !xi.Done() && !yi.Done() {
+			_, xv, err := xi.Next()
+			if err != nil {
+				panic(err)
+			}
+			_, yv, err := yi.Next()
+			if err != nil {
+				panic(err)
+			}
+			if !deepEqualNodes(xv, yv) {
+				return false
+			}
+		}
+		return true
+	default:
+		return datamodel.DeepEqual(x, y)
+	}
 }
 
 // isOrdered compares two IPLD nodes and returns true if they satisfy the given ordering function.
